@@ -78,7 +78,7 @@ Proof.
   induction fuel as [|fu IH]; intros s l Hs; simpl; [assumption|].
   destruct l as [|a [|b [|c [|d r]]]]; try assumption.
   destruct (N.of_nat n <=? be32 a b c d)%N.
-  { destruct (0 <? Params.c10_unc_skips_out_of_range)%N; [apply IH; assumption | assumption]. }
+  { destruct (0 <? Params.c10_unc_skips_out_of_range)%N; first [apply IH; assumption | assumption]. }
   destruct (update_range n s true (N.to_nat (be32 a b c d)) (S (N.to_nat (be32 a b c d)))) as [s'|] eqn:E; [|assumption].
   apply IH. eapply update_range_shaped; eauto.
 Qed.
@@ -94,11 +94,11 @@ Theorem resume_total n ld fs nf r :
 Proof.
   intros s0.
   assert (H0 : shaped n s0) by (split; simpl; [apply repeat_length | discriminate]).
-  unfold load. destruct (r_map r); simpl; [|split; [assumption | discriminate]].
+  unfold load. generalize (0 <? Params.c10_load_validates_entries)%N as pv; intros pv.
+  destruct (r_map r); simpl; [|split; [assumption | discriminate]].
   destruct (r_files r) as [es|]; [|split; auto].
   destruct (negb (Nat.eqb (length es) (length fs))); [split; auto|].
-  destruct ((0 <? Params.c10_load_validates_entries)%N &&
-            existsb (fun e => match e with FNotMap => true | _ => false end) es); [split; auto|].
+  destruct (pv && existsb (fun e => match e with FNotMap => true | _ => false end) es); [split; auto|].
   destruct (load_bitfield n s0 (r_bits r)) as [s1|] eqn:E1; [|split; auto].
   pose proof (load_bitfield_shaped _ _ _ _ E1) as H1.
   pose proof (load_files_shaped n fs s1 0 es H1) as H2.
